@@ -17,7 +17,7 @@ class In(io.BytesIO):
     pass
 
 
-MAX_BODY = 400
+MAX_BODY = 1000
 
 # how the handler touches the request body (after its statements, before its outcome)
 def _pre_body(app):
@@ -64,8 +64,8 @@ def multipart_body(boundary, parts):
 BODY_KINDS = {
     'chunked-garbage': ('body', b'zz\r\nxx', {'HTTP_TRANSFER_ENCODING': 'chunked'}, 'BodyParsingError'),
     'chunked-truncated': ('body', b'5\r\nab', {'HTTP_TRANSFER_ENCODING': 'chunked'}, 'BodyParsingError'),
-    'oversize': ('body', b'x' * 500, {'CONTENT_LENGTH': '500'}, 'BodySizeError'),
-    'oversize-chunked': ('body', b'1f5\r\n' + b'y' * 0x1f5 + b'\r\n0\r\n\r\n', {'HTTP_TRANSFER_ENCODING': 'chunked'},
+    'oversize': ('body', b'x' * 1200, {'CONTENT_LENGTH': '1200'}, 'BodySizeError'),
+    'oversize-chunked': ('body', b'4b1\r\n' + b'y' * 0x4b1 + b'\r\n0\r\n\r\n', {'HTTP_TRANSFER_ENCODING': 'chunked'},
                          'BodySizeError'),
     'bad-json': ('json', b'{x', {'CONTENT_LENGTH': '2', 'CONTENT_TYPE': 'application/json'}, 'BodyParsingError'),
     'request-error': ('reqerr', b'', {}, 'RequestError'),
